@@ -44,6 +44,8 @@ Types ==
                                                    t \in {K("i8"), K("iface"), [k |-> "ptr", e |-> K("mtp")], [k |-> "map", key |-> "txt", e |-> K("int")]}}}
     \* the sorted-key iteration at scale: insertion sort up to 11 keys, radix quicksort beyond, heapsort when the depth budget is used up
     \* by shared prefixes
+    \* every key kind has its own key renderer (and two paths: sorted and unsorted): keys with the top bit of the width set
+    [] Fam = "mapkeys" -> {[k |-> "map", key |-> kk, e |-> K("int")] : kk \in {"str", "txt"} \cup IntKinds \cup UintKinds}
     [] Fam = "rec" -> {[k |-> "rec", d |-> 2], [k |-> "ptr", e |-> [k |-> "rec", d |-> 2]], [k |-> "slice", e |-> [k |-> "rec", d |-> 1]],
                       [k |-> "map", key |-> "str", e |-> [k |-> "ptr", e |-> [k |-> "rec", d |-> 1]]], St(<<Fld("omit", "A", "A", [k |-> "rec", d |-> 1])>>),
                       K("iface")}
@@ -59,8 +61,13 @@ Num(k, c) == [g |-> "n", as |-> k, c |-> c]
 Str(c) == [g |-> "s", c |-> c]
 BigMaps == {[g |-> "bm", n |-> n, p |-> p] : n \in {2, 11, 12, 13, 16, 17, 31, 32, 33, 64, 100, 257}, p \in {0, 1, 3, 8, 10, 12}}
 RECURSIVE Vals(_, _)
+KeysFor(kk) == CASE kk = "u8" -> <<"9", "200", "12">> [] kk = "u16" -> <<"9", "40000", "12">> [] kk = "u32" -> <<"9", "3000000000", "12">>
+                  [] kk \in {"u64", "uint"} -> <<"9", "9223372036854775808", "12">> [] kk = "i8" -> <<"9", "-1", "12">> [] kk = "i16" -> <<"9", "-129", "12">>
+                  [] kk = "i32" -> <<"9", "-40000", "12">> [] kk \in {"i64", "int"} -> <<"9", "-9223372036854775808", "12">> [] OTHER -> <<"x", "k", "a">>
 Vals(t, depth) ==
   CASE Fam = "bigmap" /\ t.k = "map" -> BigMaps
+    [] Fam = "mapkeys" /\ t.k = "map" -> LET ks == KeysFor(t.key) IN {[g |-> "m", m |-> {[k |-> ks[2], v |-> Num("int", "p7")]}],
+                                                                     [g |-> "m", m |-> {[k |-> ks[i], v |-> Num("int", "p7")] : i \in 1..3}]}
     [] t.k = "rec" -> IF t.d = 0 THEN {[g |-> "st", f |-> <<Num("int", c), Nil, Nil>>] : c \in {"z", "p7"}}
                       ELSE LET sub == Vals([k |-> "rec", d |-> t.d - 1], depth + 1)
                            IN {[g |-> "st", f |-> <<Num("int", c), nx, kd>>] : c \in {"z", "p7"}, nx \in {Nil} \cup {[g |-> "p", e |-> v] : v \in sub},
